@@ -1107,6 +1107,9 @@ def zero_tags(W, line):
         a = W.ref(t[2]); b = W.ref(t[3]) if t[3].startswith('@') else None
     except (IndexError, ValueError):
         return None
+    if W.tags is not None and t[0] == 'ibin' and a.__class__ is SA and b.__class__ is SA and b is not a and len(b.rows) == 1 \
+            and any(r is b.rows[0] for r in a.rows):
+        W.tags.add('ibin-operand:own-one-row-view' + ('' if a.rows[-1] is not b.rows[0] else ':last-row'))
     za, zb = all_zero(a), (b is not None and all_zero(b))
     if not (za or zb): return None
     return 'both' if za and zb else ('self' if za else 'other')
@@ -1461,9 +1464,17 @@ class Gen:
             b = self.array_operand(m, n, boolean, pow2=(op == 'truediv'))
             if rng.random() < 0.05: b = f'@{a}'
             if rng.random() < 0.05 and o.rows: b = f'@{self.W.ids[id(rng.choice(o.rows))]}'
+            if rng.random() < 0.07 and o.rows and self.alive:
+                # a ONE-ROW selection of the target itself as the operand (`A op= A[k:k+1]`, `A op= A[[k]]`): NumPy evaluates the
+                # operand before writing, so every row must see the ORIGINAL row k
+                kk = rng.randrange(m)
+                self.do(f'get @{a} ' + rng.choice([f's{kk}:{kk + 1}:_', f'f{kk}', f'F{kk}', 'm' + ','.join('1' if i == kk else '0' for i in range(m))]))
+                if not self.alive: return
+                b = f'@{len(self.W.objs) - 1}'
             if op == 'truediv' and b.startswith('@') and not is_pow2_obj(self.W.objs[int(b[1:])]): op = 'mul'
-            if b.startswith('@') and b != f'@{a}' and self.W.objs[int(b[1:])].__class__ is SA and o.shares_data_with(self.W.objs[int(b[1:])]):
-                b = scalar_lit(rng, 2.0, 'Pf')      # (another array over some of the same row objects: rows are read after being written)
+            if b.startswith('@') and b != f'@{a}' and self.W.objs[int(b[1:])].__class__ is SA and o.shares_data_with(self.W.objs[int(b[1:])]) \
+                    and len(self.W.objs[int(b[1:])].rows) != 1:
+                b = scalar_lit(rng, 2.0, 'Pf')      # (a MULTI-row array over some of the same row objects: rows are read after being written)
             self.do(f'ibin {op} @{a} {b}')
         elif kind == 'rbin':
             op = rng.choice(('add', 'sub', 'mul', 'gt', 'eq'))
@@ -2046,6 +2057,21 @@ def grid_array(rng):
                     ops_.append(f'{"ibin" if inplace else "bin"} {op} @{m} {b}')
                     ops_.append(f'toarray @{m}')
                     cases.append(Case(ops_, {'kind': 'grid', 'cell': f'sa{"b" if boolean else ""}/{"i" if inplace else ""}{op}/{ok}'}))
+    # a one-row selection of the target as the in-place operand: every operator × every row k × selection form × array height
+    for boolean in (False, True):
+        iops = ('add', 'sub', 'mul', 'truediv', 'and', 'or', 'xor') if boolean else ARITH + ('and',)
+        for op in iops:
+            for m in (2, 3):
+                for k in range(m):
+                    for sel in (f's{k}:{k + 1}:_', f'f{k}', 'M' + ','.join('1' if i == k else '0' for i in range(m))):
+                        n = rng.choice([2, 3])
+                        pow2 = op == 'truediv'
+                        v = gen_vals(rng, m * n, 1.0, pow2, 0.0 if pow2 else 0.3)
+                        if not any(v[k * n:(k + 1) * n]): v[k * n] = 2.0          # the shared row is not all-zero
+                        if boolean: v = [float(x != 0) for x in v]
+                        ops_ = ['new ' + lit_token('P', 'b' if boolean else 'f', [m, n], v), f'get @{m} {sel}',
+                                f'ibin {op} @{m} @{m + 1}', f'toarray @{m}', f'toarray @{m + 1}']
+                        cases.append(Case(ops_, {'kind': 'grid', 'cell': f'sa{"b" if boolean else ""}/i{op}/own-row-view/m{m}k{k}/{sel[0]}'}))
     # a vector against an array
     for op in ARITH + ('eq', 'lt'):
         for inplace in (False, True):
